@@ -1,5 +1,7 @@
 """Mode statistics for t-preconditioned Crank-Nicolson MCMC."""
 
+from typing import Optional
+
 import numpy as np
 from tempest.student import fit_mvstud
 
@@ -120,6 +122,7 @@ class ModeStatistics:
         labels: np.ndarray,
         dof_fallback: float = DOF_FALLBACK,
         resample_factor: int = 4,
+        n_modes: Optional[int] = None,
     ) -> "ModeStatistics":
         """
         Fit Student-t distributions to weighted particles per cluster.
@@ -143,11 +146,17 @@ class ModeStatistics:
             Multiplier for resampling particles for robust fitting.
             Each cluster is resampled to `n_cluster * resample_factor` particles.
             Default is 4.
+        n_modes : int, optional
+            Number of cluster labels the clustering model can predict. When given,
+            one mode is built for every label in ``range(n_modes)`` so that a
+            particle's label is the index of its mode. Default is None, which
+            builds one mode per label occurring in ``labels``.
 
         Returns
         -------
         ModeStatistics
-            Fitted mode statistics with K modes where K = number of unique labels.
+            Fitted mode statistics with K modes where K = ``n_modes`` if given,
+            otherwise the number of unique labels.
 
         Notes
         -----
@@ -169,10 +178,21 @@ class ModeStatistics:
         covariances = []
         degrees_of_freedom = []
 
-        unique_labels = np.unique(labels)
-        for label in unique_labels:
+        # The kernel looks modes up by cluster label, so when the number of labels
+        # is known there must be one mode per label, in label order, even for a
+        # label that no training particle carries.
+        if n_modes is None:
+            mode_labels = np.unique(labels)
+        else:
+            mode_labels = np.arange(n_modes)
+        n_dim = u.shape[1]
+        for label in mode_labels:
             # Extract particles for this cluster
             idx_cluster = np.where(labels == label)[0]
+            if n_modes is not None and len(idx_cluster) <= n_dim:
+                # Too few particles carry this label to fit a mode of its own:
+                # use the global fit over all particles for it
+                idx_cluster = np.arange(labels.shape[0])
             u_cluster = u[idx_cluster]
             weights_cluster = weights[idx_cluster]
             weights_cluster = weights_cluster / np.sum(weights_cluster)
